@@ -78,6 +78,8 @@ class Range(HeaderElement):
 	@classmethod
 	def parse(cls, elementstr: bytes) -> "Range":
 		bytesunit, __, byteranges = elementstr.partition(b'=')
+		if not bytesunit.strip():
+			raise InvalidHeader(_(u'no range unit.'))
 		byteranges = super(Range, cls).split(byteranges)
 		ranges = set()
 		for brange in byteranges:
